@@ -15,10 +15,15 @@ CONSTANTS D,        \* maximal number of operations in a behaviour
 
 VARIABLES refs, logs, path,
           fs,       \* applicability of the path to the FILE ref store (pkg/ref/fs), see FsStep; not in the view
-          fsdirs    \* names that have been a DIRECTORY of the file store on this path (a name below them was stored):
+          fsdirs,   \* names that have been a DIRECTORY of the file store on this path (a name below them was stored):
                     \* the file store leaves emptied directories behind, such a name cannot become a ref again
-vars == <<refs, logs, path, fs, fsdirs>>
-View == <<refs, logs>>
+          alias     \* <<a, b>> right after a successful copy / rename / bulk rename from a to b, <<>> otherwise
+vars == <<refs, logs, path, fs, fsdirs, alias>>
+\* The cover is taken over the abstract state PLUS "the last operation was a copy / rename a -> b": a copy
+\* makes b's log equal to a's, which is also what two logged sets give; an implementation may get there by
+\* SHARING what it should have copied (a hard link, a shared row), and that only shows in the NEXT write
+\* to either name.  With alias in the view every operation is also explored right after every copy / rename.
+View == <<refs, logs, alias>>
 
 \* ("remotes/o/x/y" is at once the ref x/y of remote o and the ref y of a remote NAMED o/x)
 Names == { "heads/a_b", "heads/aXb", "heads/A_b", "heads/a%b",
@@ -50,7 +55,7 @@ Ops ==
 
 Apply(o) ==
   CASE o[1] = "set"        -> Set(refs, logs, o[2], o[4])
-    [] o[1] = "setlog"     -> SetWithLog(refs, logs, o[2], o[4], 0)
+    [] o[1] = "setlog"     -> SetWithLog(refs, logs, o[2], o[4], MetaOf(o[4]))
     [] o[1] = "setlogf"    -> St(refs, logs, Err)      \* a logged set is one operation: failing half way leaves nothing behind
     [] o[1] = "del"        -> Delete(refs, logs, o[2])
     [] o[1] = "get"        -> Get(refs, logs, o[2])
@@ -94,7 +99,7 @@ Min2(a, b) == IF a < b THEN a ELSE b
 Export(r, l) == [refs |-> {<<n, r[n]>> : n \in DOMAIN r},
                  logs |-> {<<n, l[n]>> : n \in DOMAIN l}]
 
-Init == refs = <<>> /\ logs = <<>> /\ path = <<>> /\ fs = 2 /\ fsdirs = {}
+Init == refs = <<>> /\ logs = <<>> /\ path = <<>> /\ fs = 2 /\ fsdirs = {} /\ alias = <<>>
 
 Next ==
   /\ Len(path) < D
@@ -106,6 +111,7 @@ Next ==
             /\ path' = Append(path, o)
             /\ fs' = Min2(fs, FsStep(o))
             /\ fsdirs' = fsdirs \cup DirsOf(s.refs)
+            /\ alias' = IF o[1] \in {"copy", "ren", "renremote"} /\ s.ret.ok /\ s.refs # refs THEN <<o[2], o[3]>> ELSE <<>>
             /\ PrintT(<<"SCN", ToJson([path |-> path', ret |-> s.ret, post |-> Export(s.refs, s.logs), fs |-> fs'])>>)
 
 Spec == Init /\ [][Next]_vars
